@@ -81,6 +81,20 @@ def scenarios():
                                        C('calc_uka_age_group', '1980-02-29', __import__('datetime').date(2015, 2, 28), 'TF')], warm)
         add('sortkey-x-distance' + w, [C('discipline_sort_key', '4x100H'), C('get_distance', '6x5K')], warm)
         add('specific-code-x-specific-code' + w, [C('get_specific_event_code', 'SP', 'M', 'SEN'), C('get_specific_event_code', 'SP', 'M', 'U11')], warm)
+    # a refused call next to an ordinary one: whatever a raising call holds (a lock, a half-updated memo) when it is
+    # abandoned must not be there for the other thread to trip over
+    for warm in (False, True):
+        w = '-warm' if warm else '-first'
+        add('wma-refused-x-ok' + w, [C('wma_age_factor', 'm', 50, 'NOSUCH', year=2023), C('wma_age_factor', 'f', 72, 'MAR', year=2023)], warm)
+        add('wma-grade-unparsable-x-ok' + w, [C('wma_age_grade', 'm', 50, '5K', 'abc', year=2023), C('wma_age_grade', 'f', 65, 'LJ', 3.8, year=2023)], warm)
+        add('athlon-refused-with-age-x-ok' + w, [C('athlon_score', 'M', '3000', 600.0, age=40), C('athlon_score', 'F', 'JT', 30.0, age=50)], warm)
+        add('athlon-factor-refused-x-ok' + w, [C('wma_athlon_age_factor', 'M', 50, '150H'), C('wma_athlon_age_factor', 'f', 69, 'LJ')], warm)
+        add('sportshall-unknown-x-ok' + w, [C('sportshall_score', 'NOSUCH', '2.00'), C('sportshall_score', '800', '144')], warm)
+        add('hungarian-unknown-x-ok' + w, [C('hungarian_score', 'M', 'OUT', 'NOSUCH', 10.5), C('hungarian_score', 'F', 'IND', 'HJ', 1.8)], warm)
+    for cache in ('empty', 'full'):
+        add('valid_against-raising-x-ok-' + cache, [C('valid_against_schema', 'sample-jsons/event_invalid.json', 'json/event.json', expect_failure=True),
+                                                   C('valid_against_schema', 'sample-jsons/athlete.json', 'json/athlete.json')], False, cache)
+        add('schema_valid-missing-file-x-ok-' + cache, [C('schema_valid', 'json/no-such-schema.json'), C('schema_valid', 'json/race.json')], False, cache)
     # triples
     add('triple-athlon-first', [C('athlon_score', 'M', '100', 11.0), C('athlon_score', 'F', 'LJ', 5.5), C('athlon_performance_needed', 'M', 'HJ', 700)])
     add('triple-wma-first', [C('wma_age_factor', 'm', 50, '100', year=2023), C('wma_age_factor', 'f', 72, 'MAR', year=2023), C('wma_age_grade', 'm', 35, 'HJ', 2.0, year=2023)])
@@ -114,6 +128,7 @@ class Harness(object):
         import jsonschema
         self.js = jsonschema
         self.ref_cache = {}
+        self.deadlocked = set()
         # import-time state of every athlib module: globals / class attributes that are None or EMPTY containers right
         # after import are the lazily built tables, caches and memos; they are put back to that state between runs
         # (empty containers are cleared in place so that references held elsewhere stay valid)
@@ -159,6 +174,8 @@ class Harness(object):
         return go
 
     def reset(self, warm, cache):
+        for l in self.locks + sched.RUNTIME['locks']:
+            l.renew()
         for m in self.reload_mods:
             import importlib
             importlib.reload(m)
@@ -255,6 +272,9 @@ class Harness(object):
     def run_schedule(self, sc, roles, points, ref):
         """roles: permutation (thread index -> call index); points: {(tid, k): next tid}"""
         ctx = self.ctx
+        if sc['name'] in self.deadlocked:
+            ctx.count('unjudged.schedule-of-a-scenario-already-found-deadlocking')
+            return
         self.reset(sc['warm'], sc['cache'])
         ctl = sched.Controller(core.REPO, points, self.locks)
         res, alive = ctl.run([self.thunk(sc['calls'][ci]) for ci in roles])
@@ -264,6 +284,7 @@ class Harness(object):
                 'at': [list(ctl.preempted_at.get(k, ())) for k in sorted(points)]}
         if alive:
             ctx.violation('deadlock:%s' % sc['name'].split('-')[0], case, 'all threads finish', 'threads %s never finished' % alive)
+            self.deadlocked.add(sc['name'])       # one witness is enough; the abandoned threads stay blocked for ever
             return
         if ctl.stalled:
             ctx.count('eval.schedule-released-by-progress-watchdog')
@@ -336,8 +357,9 @@ def stress(h, ctx, rounds, nthreads, seed):
             ths = [threading.Thread(target=body, args=(i,), daemon=True) for i in range(nthreads)]
             for t in ths:
                 t.start()
+            deadline = time.time() + 25
             for t in ths:
-                t.join(60)
+                t.join(max(0.0, deadline - time.time()))
             ctx.count('eval.stress-round')
             if any(t.is_alive() for t in ths):
                 ctx.violation('deadlock:stress:%s' % sc['name'].split('-')[0], {'scenario': sc['name'], 'threads': nthreads}, 'all finish', 'hung')
